@@ -268,11 +268,55 @@ def one_case(ctx, kw, info, rep, count=True):
     return m
 
 
+def bottleneck_family(ctx):
+    """Deterministic family (run on every call): k in-edges of weight w into v, the bottleneck (v, x) of weight w, k out-edges
+    of weight w out of x.  The closest flow RAISES the bottleneck to k*w (cost (k-1)*w); lowering the 2k outer edges costs
+    2(k-1)w.  So the best correction changes one edge by more than the largest weight.  The returned flow is compared with the
+    explicit witness flow (any valid flow's cost is an upper bound of the optimum).  DAG and cyclic variants, int and float."""
+    for k in (2, 3, 4):
+        for w in (5, 2.5, 3):
+            for cyclic in (False, True):
+                for ign_outer in (False, True):
+                    is_int = isinstance(w, int)
+                    G = nx.DiGraph(); wit = {}
+                    for i in range(k):
+                        G.add_edge(f"a{i}", "v", flow=w); wit[(f"a{i}", "v")] = w
+                    G.add_edge("v", "x", flow=w); wit[("v", "x")] = k * w
+                    for i in range(k):
+                        G.add_edge("x", f"b{i}", flow=w); wit[("x", f"b{i}")] = w
+                    if cyclic:
+                        G.add_edge("b0", "a0", flow=w); wit[("b0", "a0")] = w
+                    kw = dict(G=G, flow_attr="flow", flow_attr_origin="edge", weight_type=int if is_int else float,
+                              elements_to_ignore=[("a0", "v")] if ign_outer else [], error_scaling={})
+                    info = {"scale": 1 if is_int else (0.5 if w == 2.5 else 1), "acyclic": not cyclic, "is_int": is_int}
+                    rep = {"class": "MinErrorFlow", "args": describe(kw), "scale": str(info["scale"]), "family": "bottleneck"}
+                    ctx.dist("bottleneck " + ("cyclic" if cyclic else "dag"))
+                    m = one_case(ctx, kw, info, rep)
+                    ctx.case(["bottleneck", describe(kw)], nontrivial=True)
+                    if m is None or not m.is_solved():
+                        continue
+                    GI, f, charged, scale, types, acyclic, ignore = semantic_view(m, kw)
+                    if props.is_flow(GI, wit, types, tol=0) is not None:
+                        ctx.report("harness: the bottleneck witness is not a flow", rep, concrete=False); continue
+                    wcost = props.flow_cost(GI, wit, f, charged, scale, types, 0, scaled=True)
+                    H = m.get_solution()["graph"]
+                    x = {e: H[e[0]][e[1]]["flow"] for e in GI.edges()}
+                    cost = props.flow_cost(GI, x, f, charged, scale, types, 0, scaled=True)
+                    ctx.count("E2_bottleneck_witness", "cases")
+                    if cost > wcost + TOL:
+                        ctx.report(f"returned flow changes the weights by {cost} in total; the flow that raises the bottleneck (v,x) to {k * w} "
+                                   f"changes them by {wcost} only (a correction may exceed the largest weight)",
+                                   dict(rep, returned={str(e): v for e, v in x.items()}, witness={str(e): v for e, v in wit.items()}))
+                    else:
+                        ctx.count("E2_bottleneck_witness", "not_worse_than_witness")
+
+
 def run(ctx):
     e1misc.install()
     ctx.rule = ("MinErrorFlow on random DAGs (<= 5 nodes) and cyclic digraphs (<= 6 nodes) with <= 6 edges, values 0..6 (int) or dyadic floats, "
                 "edges without the attribute (ignored), ignore lists, error scalings {0, 1/4, 1/2, 1}, additional starts/ends, sparsity lambda (DAGs), "
-                "few_flow_values_epsilon {0, 1/4, 1/2, 1, 2}; every 4th case node-weighted; non-trivial = >= 1 conservation row and >= 1 charged edge")
+                "few_flow_values_epsilon {0, 1/4, 1/2, 1, 2}; every 4th case node-weighted; plus the deterministic bottleneck family (k in-edges, one bottleneck, k out-edges; optimum raises the bottleneck above the largest weight) compared with its explicit witness flow; non-trivial = >= 1 conservation row and >= 1 charged edge")
+    bottleneck_family(ctx)
     n = ctx.budget(700, 10000)
     for i in range(n):
         rng = ctx.rng("mef", i)
